@@ -330,6 +330,15 @@ func (w *world) apply(o op) {
 		h := w.live[o.h]
 		w.log = append(w.log, fmt.Sprintf("ReadNested(h%d)", o.h))
 		w.readNested(h)
+		// Close on a nested result belongs to its parent and does nothing (callers that close everything they were handed
+		// are common); the nested results must stay readable, and closing the parent later must not release them twice
+		for _, nh := range h.nested {
+			if err := nh.res.Close(); err != nil {
+				w.fail("nested-close-error", "Close of a nested result: %v", err)
+			}
+			w.calls++
+		}
+		w.readNested(h)
 	case opClose:
 		h := w.live[o.h]
 		w.log = append(w.log, fmt.Sprintf("Close(h%d)", o.h))
